@@ -138,3 +138,73 @@ theorem depthAfter_shift (p : List Tok) : ∀ (r r' k : Nat), depthAfter r p = s
     | directive s => simp only [depthAfter] at h ⊢; exact ih r r' k h
 
 end XmppModel.Encoder
+
+namespace XmppModel.Encoder
+open XmppModel.Xml
+
+theorem depthAfter_append (a b : List Tok) :
+    ∀ d, depthAfter d (a ++ b) = (depthAfter d a).bind fun d' => depthAfter d' b := by
+  induction a with
+  | nil => intro d; simp [depthAfter]
+  | cons t ts ih =>
+    intro d
+    cases t with
+    | start n as => simp [depthAfter, ih]
+    | stop n => cases d <;> simp [depthAfter, ih]
+    | chars s => simp [depthAfter, ih]
+    | comment s => simp [depthAfter, ih]
+    | procInst x y => simp [depthAfter, ih]
+    | directive s => simp [depthAfter, ih]
+
+/-- the encoder's depth counter follows the nesting of what it is given -/
+theorem encode_fst (cfg : Cfg) (f : String) (ts : List Tok) :
+    ∀ (d : Int) (r r' : Nat), depthAfter r ts = some r' → (encode cfg f d ts).1 = d + r' - r := by
+  induction ts with
+  | nil => intro d r r' h; simp [depthAfter] at h; simp [encode_nil, h]
+  | cons t ts ih =>
+    intro d r r' h
+    cases t with
+    | start n as =>
+      simp only [depthAfter] at h
+      have := ih (d + 1) (r + 1) r' h
+      simp only [encode_cons, encTok]; rw [this]; omega
+    | stop n =>
+      cases r with
+      | zero => simp [depthAfter] at h
+      | succ k =>
+        simp only [depthAfter] at h
+        have := ih (d - 1) k r' h
+        simp only [encode_cons, encTok]; rw [this]; omega
+    | chars s => simp only [depthAfter] at h; simp only [encode_cons, encTok]; exact ih d r r' h
+    | comment s => simp only [depthAfter] at h; simp only [encode_cons, encTok]; exact ih d r r' h
+    | procInst a b => simp only [depthAfter] at h; simp only [encode_cons, encTok]; exact ih d r r' h
+    | directive s => simp only [depthAfter] at h; simp only [encode_cons, encTok]; exact ih d r r' h
+
+/-- a complete element is balanced as a token list -/
+theorem element_balanced (n m : Name) (as : List Attr) (body : List Tok) (hb : depthAfter 0 body = some 0) :
+    depthAfter 0 (.start n as :: body ++ [.stop m]) = some 0 := by
+  have h1 := depthAfter_shift body 0 0 1 hb
+  simp only [List.cons_append, depthAfter]
+  rw [depthAfter_append]
+  simp at h1
+  simp [h1, depthAfter]
+
+/-- a proper, non-empty prefix of a complete element leaves at least one element open -/
+theorem prefix_open (n m : Name) (as : List Attr) (body : List Tok) (hb : depthAfter 0 body = some 0)
+    (k : Nat) (hk : 0 < k) (hk2 : k < (Tok.start n as :: body ++ [Tok.stop m]).length) :
+    ∃ r, depthAfter 0 ((Tok.start n as :: body ++ [Tok.stop m]).take k) = some (r + 1) := by
+  obtain ⟨j, rfl⟩ : ∃ j, k = j + 1 := ⟨k - 1, by omega⟩
+  have hj : j ≤ body.length := by simp at hk2; omega
+  simp only [List.cons_append, List.take_succ_cons, depthAfter]
+  rw [List.take_append_of_le_length hj]
+  have hsplit : body = body.take j ++ body.drop j := (List.take_append_drop j body).symm
+  have h2 := hb
+  rw [hsplit, depthAfter_append] at h2
+  cases hp : depthAfter 0 (body.take j) with
+  | none => rw [hp] at h2; simp at h2
+  | some r =>
+    refine ⟨r, ?_⟩
+    have := depthAfter_shift (body.take j) 0 r 1 hp
+    simpa using this
+
+end XmppModel.Encoder
